@@ -25,8 +25,8 @@ Section Relay.
 
   Lemma nlen_ge_10 (a b cc d e f g h i j : ascii) (t : bytes) : (10 <=? nlen (a :: b :: cc :: d :: e :: f :: g :: h :: i :: j :: t)) = true.
   Proof. unfold nlen. cbn [length]. apply N.leb_le. lia. Qed.
-  Lemma nlen_ge_8 (a b cc d e f g h : ascii) (t : bytes) : (nlen (a :: b :: cc :: d :: e :: f :: g :: h :: t) <? 8) = false.
-  Proof. unfold nlen. cbn [length]. apply N.ltb_ge. lia. Qed.
+  Lemma nlen_ge_8 (a b cc d e f g h : ascii) (t : bytes) : (nlen (a :: b :: cc :: d :: e :: f :: g :: h :: t) <? c_MIN_REPLY) = false.
+  Proof. unfold nlen. cbn [length]. apply N.ltb_ge. change c_MIN_REPLY with 7. lia. Qed.
 
   (* the parser on a complete IPv4 success reply (CONNECT): consume 10 bytes, fire reply_ipv4 *)
   Lemma parse_ipv4_success rec s rsv a1 a2 a3 a4 p1 p2 payload a :
